@@ -44,6 +44,10 @@ func runC01(c *Check, tier string) {
 	useFamily(c, "R01m", famGate, 8)
 	useFamily(c, "R01n", famStore, 20)
 	useFamily(c, "R01o", famRestore, 20)
+	// round 7: the key describes the inputs as they are when the target runs
+	ruleKeyContentReadInsideCallback(c, "R01w")
+	ruleNoContentMemo(c, "R01x", "hashing", "execution", "output")
+	ruleContentDigestsNotSorted(c, "R01y")
 	ruleMemoKeyComplete(c, "R01k", "loading", "hashing", "execution", "output", "dag", "analysis", "selection", "config", "label", "model", "caching", "cmd")
 	// every input the user declared is a key source: a pattern must be recognised as one
 	ruleGlobMetaComplete(c, "R01t")
